@@ -4,6 +4,11 @@ that the manifest stays valid and consistent while checks are added)."""
 import json, sys
 
 CHECKS = {
+ "C12": ("fault_enumeration",
+         "runtime fault injection through harness-supplied writer / reader / fetcher / registry client / finders at every position, with return-value, recovered-panic, directory-copy (crash point) and diagnostic-content oracles",
+         "Every single failure position is enumerated per stream or build: each write offset of Pack's writer (error required), each read offset of Unpack's reader as error and as clean EOF (success only with the complete tree), 16 policy refusals (must be IllegalSlugError), each fetcher / registry / finder call of generated builds in all applicable fault modes (and all pairs in the thorough tier): error diagnostic from the Add call that ran it, all Builder methods refuse afterwards, no Bundle, directory does not open; warnings and errors of finders reach caller and tracer intact with file names rewritten; the target directory is copied and opened at every callback entry and exit; read-only target directory at every position as an unprivileged user.",
+         "Faults are injected at the public boundary only; failures inside go-slug's own filesystem calls are reached through the read-only-directory phase, not per syscall (the strace injector of the design was not built).",
+         "DESIGN.md §5 C12"),
  "C13": ("exploration",
          "runtime differential monitor over all Add orders (bundle fingerprints) and over concurrent Add calls on one builder under the Go race detector with yields injected in harness callbacks; coalescing check",
          "The same multiset of Add calls is built in every order (all n! for n<=4, 24 sampled beyond) and with 2-8 concurrent goroutines (race-instrumented worker, 4 builds per world, PRNG Gosched bursts / sleeps inside every callback); manifest bytes, checksum, top-level names, lookup answers and per-directory contents must equal the reference build, exactly-once counting must hold under concurrency, race reports are violations; packages with equal path->content maps must share a directory and unequal ones must not.",
@@ -90,9 +95,9 @@ CHECKS = {
          "The predicate in props/c07.go is the reading of the documented policy; must-accept is limited to documented forms.",
          "DESIGN.md §5 C07"),
  "C19": ("exploration",
-         "watched worker processes: recovered panics, process death and watchdog on hostile inputs to every entry point",
-         "Hostile, mutated and random inputs are fed to each entry point inside watched worker processes; a recovered panic, a fatal runtime error (the driver attributes the death to the case in progress) or a case without progress for the watchdog period is a violation.",
-         "Only inputs generated are covered; hang detection uses a generous wall-clock watchdog confirmed by lack of case progress.",
+         "watched worker processes: recovered panics, process death (stack exhaustion, fatal errors) and a per-case watchdog, over hostile inputs to every entry point",
+         "Inputs: valid-UTF-8 strings (grammar, mutations, random runes) through all eight address parsers and the printing methods; tar streams with structured header mutations and repaired checksums, truncations, bit flips, random bytes, concatenated members through Unpack; generated / mutated / random manifest documents through OpenDir and the lookups; 24 trees with link cycles inside and outside the tree, directories linking to themselves / their parents / each other, links to fifos and sockets, odd names, deep nesting, rule files that are directories / dangling links / fifos, and 66 degenerate rule lines at every position of a rule file, through Pack (all option sets) and a one-package bundle build. A recovered panic, a dead worker (attributed to the case in progress) or a case without progress for the watchdog period is a violation.",
+         "Only generated inputs are covered; a hang is decided by the driver's watchdog (25-120 s without case progress, cases normally take milliseconds).",
          "DESIGN.md §5 C19"),
  # id: (level category, technique, level text, level note, design ref)
  "C11": ("exploration",
